@@ -32,13 +32,28 @@ fn subquery_runtime() -> &'static tokio::runtime::Runtime {
 
 /// Execute an async physical plan, reusing a shared runtime instead of creating
 /// a new one per subquery evaluation.
+///
+/// Every partition the plan declares is drained (concurrently, like
+/// `ExecutionContext::sql` does) and the batches are returned in partition
+/// order. Driving only partition 0 silently dropped the rows of every other
+/// partition whenever the plan was partitioned, e.g. a Parquet scan over
+/// several row groups or a memory table of several large batches.
 fn run_subquery_blocking(
     physical: Arc<dyn crate::physical::PhysicalOperator>,
 ) -> Result<Vec<RecordBatch>> {
     let rt = subquery_runtime();
     std::thread::spawn(move || {
-        let stream = rt.block_on(physical.execute(0))?;
-        rt.block_on(async { stream.try_collect().await })
+        rt.block_on(async move {
+            let partitions = (0..physical.output_partitions().max(1)).map(|partition| {
+                let physical = Arc::clone(&physical);
+                async move {
+                    let stream = physical.execute(partition).await?;
+                    stream.try_collect::<Vec<RecordBatch>>().await
+                }
+            });
+            let batches = futures::future::try_join_all(partitions).await?;
+            Ok(batches.into_iter().flatten().collect())
+        })
     })
     .join()
     .unwrap_or_else(|_| {
@@ -274,7 +289,10 @@ impl SubqueryExecutor {
         // Run the async code reusing the existing runtime when possible
         let batches = run_subquery_blocking(physical)?;
 
-        if batches.is_empty() || batches[0].num_rows() == 0 {
+        // The single row may sit in any batch: partitions that produce
+        // nothing still contribute (empty) batches.
+        let total_rows: usize = batches.iter().map(|b| b.num_rows()).sum();
+        if total_rows == 0 {
             let result = ScalarValue::Null;
             self.inner
                 .cache
@@ -283,13 +301,16 @@ impl SubqueryExecutor {
             return Ok(result);
         }
 
-        let batch = &batches[0];
-        if batch.num_rows() != 1 {
+        if total_rows != 1 {
             return Err(QueryError::Execution(format!(
                 "Scalar subquery returned {} rows, expected 1",
-                batch.num_rows()
+                total_rows
             )));
         }
+        let batch = batches
+            .iter()
+            .find(|b| b.num_rows() == 1)
+            .expect("one row in total");
 
         let column = batch.column(0);
         let scalar = array_ref_to_scalar(column, 0)?;
